@@ -1,6 +1,6 @@
 (** C10 - Illegal operations panic, and single-entity failures change nothing.
     Statements only; proofs in Proofs/Atomic.v. *)
-From Arche Require Import Model.Base Model.Pool Model.World Model.Ops Proofs.Atomic.
+From Arche Require Import Model.Base Model.Pool Model.World Model.Ops Proofs.Atomic Proofs.RelRefine Proofs.SpecDet.
 
 (** Whatever the operation and the state: a panic returns the very world it was given
     (every observable as before, the world fully usable) and emits no event.  (Batch
@@ -34,5 +34,26 @@ Theorem C10_component_args : forall w e add rem,
   step w (OExchange e add rem) = (w, Panic, []).
 Proof. exact illegal_component_args. Qed.
 
+(** The complete specification: on a world that refines the abstract store, whether an
+    operation of the single-entity core panics - and what it returns otherwise - is the
+    function [spec_out] of the abstract state and the pool.  Reading [spec_exchange]:
+    a dead or recycled entity, a dead target, nothing to do together with a relation
+    argument, removing an absent component ([exmask_rem]), adding a present one
+    ([exmask_add]), duplicate ids, adding and removing the same id, a second relation
+    component ([wa_ok]), a relation argument that is not a relation component of the new
+    set ([xtarget]) - each gives Panic, everything else Ok. *)
+Theorem C10_outcome_is_specified : forall w A o,
+  R w A -> det_op A (w_tb w) o ->
+  snd (fst (step w o)) = spec_out A (w_pool w) (w_tb w) o /\
+  w_pool (fst (fst (step w o))) = spec_pool (w_pool w) o (snd (fst (step w o))).
+Proof. exact step_outcome. Qed.
+
+Example C10_spec_example :
+  outcomes (world_init 4 4 64) demo_det_ops =
+  [Ok (VNat 0); Ok (VNat 1); Ok (VNat 2); Ok (VEnt (mkE 1 0)); Ok (VEnt (mkE 2 0)); Panic; Panic; Ok VUnit;
+   Ok VUnit; Ok VUnit; Panic; Ok (VEnt (mkE 1 0)); Panic].
+Proof. exact demo_det_outcomes. Qed.
+
 Print Assumptions C10_panic_atomic.
+Print Assumptions C10_outcome_is_specified.
 Print Assumptions C10_dead_target.
